@@ -352,3 +352,34 @@ Example C13_example_ip4_masks :
   ip_doc [49;48;46;49;46;50;46;51] [49;48;46;48;46;48;46;48;47;48;46;50;53;53;46;50;53;53;46;50;53;53] = true /\
   ip_doc [49;48;46;49;46;50;46;51] [49;48;46;49;46;50;46;51;47;50;53;53;46;48;46;50;53;53;46;48] = false.
 Proof. vm_compute. repeat split; reflexivity. Qed.
+
+(* ---------------------------------------------------------------------------------------------------------------
+   Of the SOURCE: key_match and key_get (casbin/util/builtin_operators.py) - the two built-in functions that are plain
+   string code - are re-translated on every run into programs of the language of StrLang.v (coq/gen/KeyMatchGen.v);
+   StrTie.v proves that the interpreter run on them computes KeyMatch.key_match / key_get, the functions
+   C13_key_match_iff and the key_get theorems above are about, for every key and every pattern.  (The other built-ins go
+   through `re` / `ipaddress`; for them the tie is the differential correspondence of the check.) *)
+From PyCasbin Require StrLang StrTie.
+From PyCasbinGen Require KeyMatchGen.
+
+Theorem C13_source_key_match : forall k p, StrTie.run_key_match k p = Ok (StrLang.SVB (key_match k p)).
+Proof. exact StrTie.tie_key_match. Qed.
+Print Assumptions C13_source_key_match.
+
+Theorem C13_source_key_get : forall k p, StrTie.run_key_get k p = Ok (StrLang.SVS (key_get k p)).
+Proof. exact StrTie.tie_key_get. Qed.
+Print Assumptions C13_source_key_get.
+
+(* hence, of the regenerated source: keyMatch answers True exactly for the documented language *)
+Theorem C13_source_key_match_iff : forall k p, StrTie.run_key_match k p = Ok (StrLang.SVB true) <-> km_lang p k.
+Proof.
+  intros k p. rewrite StrTie.tie_key_match, <- key_match_iff.
+  split; [intro H; inversion H; reflexivity | intros ->; reflexivity].
+Qed.
+Print Assumptions C13_source_key_match_iff.
+
+Example C13_source_example :
+  StrTie.run_key_match [47;102;111;111;47;98;97;114] [47;102;111;111;47;42] = Ok (StrLang.SVB true)
+  /\ StrTie.run_key_match [47;102;111] [47;102;111;111;47;42] = Ok (StrLang.SVB false)
+  /\ StrTie.run_key_get [47;102;111;111;47;98;97;114] [47;102;111;111;47;42] = Ok (StrLang.SVS [98;97;114]).
+Proof. vm_compute. repeat split; reflexivity. Qed.
